@@ -3042,3 +3042,119 @@ mod test {
         assert!(write_txn.transaction_id > remove_txn_id.next());
     }
 }
+
+// Verification hook H3 (read-only, add-only): see tree_store/page_store/verif/snapshot.rs
+#[cfg(redb_verif)]
+impl WriteTransaction {
+    /// Snapshot of the shared bookkeeping plus this transaction's locals
+    pub fn verif_snapshot(&self) -> crate::verif::VTxnSnapshot {
+        use crate::verif::{
+            VDbSnapshot, VPage, VPendingUpdate, VRoot, VSavepointTxnState, VTxnSnapshot, vpages,
+        };
+        fn pending(
+            updates: Vec<(String, Option<BtreeHeader>, u64, bool)>,
+        ) -> Vec<VPendingUpdate> {
+            updates
+                .into_iter()
+                .map(|(name, root, length, dirty)| (name, VRoot::opt(root), length, dirty))
+                .collect()
+        }
+        let db = VDbSnapshot {
+            mem: self.mem.verif_snapshot(),
+            tracker: self.transaction_tracker.verif_snapshot(),
+        };
+        let savepoint_state = {
+            let s = self.savepoint_state.lock().unwrap();
+            VSavepointTxnState {
+                created_persistent: s
+                    .created_persistent
+                    .iter()
+                    .map(|(id, txn)| (id.0, txn.raw_id()))
+                    .collect(),
+                deleted_persistent: s
+                    .deleted_persistent
+                    .iter()
+                    .map(|(id, txn)| (id.0, txn.raw_id()))
+                    .collect(),
+                invalidated: s.invalidated.iter().map(|id| id.0).collect(),
+            }
+        };
+        let tables = self.tables.lock().unwrap();
+        let system_tables = self.system_tables.lock().unwrap();
+        VTxnSnapshot {
+            db,
+            transaction_id: self.transaction_id.raw_id(),
+            completed: self.completed,
+            dirty: self.dirty.load(Ordering::Acquire),
+            poisoned: self.is_poisoned(),
+            durability_immediate: self.durability == InternalDurability::Immediate,
+            two_phase_commit: self.two_phase_commit,
+            quick_repair: self.quick_repair,
+            post_commit_free_enabled: self.post_commit_free == PostCommitFree::Enabled,
+            restored_transaction: self.restored_transaction.map(TransactionId::raw_id),
+            savepoint_state,
+            allocated_since_commit: vpages(
+                tables
+                    .table_tree
+                    .page_allocator()
+                    .verif_allocated_since_commit(),
+            ),
+            data_freed_pages: tables
+                .freed_pages
+                .lock()
+                .unwrap()
+                .iter()
+                .map(|p| VPage::of(*p))
+                .collect(),
+            system_freed_pages: system_tables
+                .freed_pages
+                .lock()
+                .unwrap()
+                .iter()
+                .map(|p| VPage::of(*p))
+                .collect(),
+            page_tracker: tables.allocated_pages.verif_snapshot(),
+            open_tables: tables.open_tables.keys().cloned().collect(),
+            data_master_root: VRoot::opt(tables.table_tree.verif_root()),
+            system_master_root: VRoot::opt(system_tables.table_tree.verif_root()),
+            data_pending_updates: pending(tables.table_tree.verif_pending_updates()),
+            system_pending_updates: pending(system_tables.table_tree.verif_pending_updates()),
+        }
+    }
+
+    /// Pages reachable from the given committed roots, read through this transaction's memory
+    pub fn verif_reach(
+        &self,
+        data_root: Option<crate::verif::VRoot>,
+        system_root: Option<crate::verif::VRoot>,
+    ) -> Result<crate::verif::VReach> {
+        crate::verif::reach(
+            &self.mem,
+            data_root.map(crate::verif::VRoot::header),
+            system_root.map(crate::verif::VRoot::header),
+        )
+    }
+
+    /// Pages reachable from this transaction's current (uncommitted) roots, staged table roots
+    /// applied. Tables with a live handle are seen at their last staged root (see `open_tables`).
+    pub fn verif_reach_current(&self) -> Result<crate::verif::VReach> {
+        let tables = self.tables.lock().unwrap();
+        let system_tables = self.system_tables.lock().unwrap();
+        crate::verif::reach_live(&self.mem, &tables.table_tree, &system_tables.table_tree)
+    }
+
+    pub fn verif_read_page(&self, page: crate::verif::VPage) -> Result<Vec<u8>> {
+        crate::verif::read_page(&self.mem, page)
+    }
+}
+
+#[cfg(redb_verif)]
+impl ReadTransaction {
+    /// (transaction id this reader is registered at, data root it reads from)
+    pub fn verif_root(&self) -> (u64, Option<crate::verif::VRoot>) {
+        (
+            self.tree.transaction_guard().id().raw_id(),
+            crate::verif::VRoot::opt(self.tree.verif_root()),
+        )
+    }
+}
